@@ -54,6 +54,9 @@ use std::time::{Duration, Instant};
 #[derive(Default, Clone)]
 pub struct Stats {
     pub calls: BTreeMap<String, u64>,
+    /// bytes of stream data the library handed out (`Stream::data`, image data, font programs): what a
+    /// document may legitimately cost beyond its own length
+    pub decoded: u64,
 }
 impl Stats {
     fn hit(&mut self, what: &str, ok: bool) {
@@ -83,7 +86,9 @@ fn parse_options(tolerant: bool) -> ParseOptions {
 const CAP: usize = 4096;
 
 fn walk_stream_data<I: Object>(s: &Stream<I>, r: &impl Resolve, st: &mut Stats) {
-    st.res("stream.data", s.data(r));
+    if let Some(d) = st.res("stream.data", s.data(r)) {
+        st.decoded += d.len() as u64;
+    }
 }
 
 fn walk_function(f: &Function, st: &mut Stats) {
@@ -151,7 +156,9 @@ fn walk_font(font: &Font, r: &impl Resolve, st: &mut Stats) {
         }
     }
     if let Some(res) = font.embedded_data(r) {
-        st.res("font.embedded_data", res);
+        if let Some(d) = st.res("font.embedded_data", res) {
+            st.decoded += d.len() as u64;
+        }
     }
     let _ = font.is_cid();
     let _ = font.cid_to_gid_map();
@@ -161,7 +168,9 @@ fn walk_font(font: &Font, r: &impl Resolve, st: &mut Stats) {
 
 fn walk_image(img: &ImageXObject, r: &impl Resolve, st: &mut Stats) {
     st.res("image.raw_image_data", img.raw_image_data(r).map(|_| ()));
-    st.res("image.image_data", img.image_data(r));
+    if let Some(d) = st.res("image.image_data", img.image_data(r)) {
+        st.decoded += d.len() as u64;
+    }
     if let Some(ref cs) = img.color_space {
         walk_colorspace(cs, r, st, 8);
     }
@@ -599,6 +608,70 @@ pub fn walk_document(bytes: &[u8], opts: WalkOpts, with_scan: bool) -> Stats {
 }
 
 // ---------------------------------------------------------------------------------------------------
+// memory accounting: a counting global allocator (the whole harness runs on it; two relaxed atomics per
+// allocation). The child resets the peak before every document and reports `peak - level at the start`.
+
+pub struct CountingAlloc;
+/// counting is switched on in walker children only: the other properties of the harness pay one relaxed load
+static ALLOC_ON: std::sync::atomic::AtomicBool = std::sync::atomic::AtomicBool::new(false);
+static ALLOC_CUR: std::sync::atomic::AtomicIsize = std::sync::atomic::AtomicIsize::new(0);
+static ALLOC_PEAK: std::sync::atomic::AtomicIsize = std::sync::atomic::AtomicIsize::new(0);
+
+#[inline]
+fn alloc_add(n: usize) {
+    if ALLOC_ON.load(Ordering::Relaxed) {
+        let cur = ALLOC_CUR.fetch_add(n as isize, Ordering::Relaxed) + n as isize;
+        ALLOC_PEAK.fetch_max(cur, Ordering::Relaxed);
+    }
+}
+#[inline]
+fn alloc_sub(n: usize) {
+    if ALLOC_ON.load(Ordering::Relaxed) {
+        // (may go below zero for what was allocated before counting began: only differences are used)
+        ALLOC_CUR.fetch_sub(n as isize, Ordering::Relaxed);
+    }
+}
+
+unsafe impl std::alloc::GlobalAlloc for CountingAlloc {
+    unsafe fn alloc(&self, l: std::alloc::Layout) -> *mut u8 {
+        let p = std::alloc::System.alloc(l);
+        if !p.is_null() { alloc_add(l.size()); }
+        p
+    }
+    unsafe fn alloc_zeroed(&self, l: std::alloc::Layout) -> *mut u8 {
+        let p = std::alloc::System.alloc_zeroed(l);
+        if !p.is_null() { alloc_add(l.size()); }
+        p
+    }
+    unsafe fn dealloc(&self, p: *mut u8, l: std::alloc::Layout) {
+        std::alloc::System.dealloc(p, l);
+        alloc_sub(l.size());
+    }
+    unsafe fn realloc(&self, p: *mut u8, l: std::alloc::Layout, new_size: usize) -> *mut u8 {
+        let q = std::alloc::System.realloc(p, l, new_size);
+        if !q.is_null() {
+            if new_size >= l.size() { alloc_add(new_size - l.size()); } else { alloc_sub(l.size() - new_size); }
+        }
+        q
+    }
+}
+
+#[global_allocator]
+static GLOBAL: CountingAlloc = CountingAlloc;
+
+/// (bytes allocated now, highest value since the last `alloc_reset_peak`), relative to the start of counting
+pub fn alloc_levels() -> (isize, isize) {
+    (ALLOC_CUR.load(Ordering::Relaxed), ALLOC_PEAK.load(Ordering::Relaxed))
+}
+/// switches counting on (if it is not) and restarts the peak at the current level, which is returned
+pub fn alloc_reset_peak() -> isize {
+    ALLOC_ON.store(true, Ordering::Relaxed);
+    let cur = ALLOC_CUR.load(Ordering::Relaxed);
+    ALLOC_PEAK.store(cur, Ordering::Relaxed);
+    cur
+}
+
+// ---------------------------------------------------------------------------------------------------
 // child side
 
 #[repr(C)]
@@ -674,6 +747,7 @@ pub fn maybe_child(replay: &Value) {
         CUR_DOC.store(i as i64, Ordering::SeqCst);
         append(&progress, &format!("S {}", i));
         let t = Instant::now();
+        let base = alloc_reset_peak();
         let handle = std::thread::Builder::new()
             .stack_size(8 << 20)
             .spawn(move || std::panic::catch_unwind(std::panic::AssertUnwindSafe(|| walk_document(&bytes, opts, with_scan))))
@@ -682,7 +756,7 @@ pub fn maybe_child(replay: &Value) {
         CUR_DOC.store(-1, Ordering::SeqCst);
         let ms = t.elapsed().as_millis() as u64;
         let out = match res {
-            Ok(Ok(st)) => json!({"outcome": "returned", "ms": ms, "calls": st.calls}),
+            Ok(Ok(st)) => json!({"outcome": "returned", "ms": ms, "calls": st.calls, "peak_bytes": (alloc_levels().1 - base).max(0) as u64, "decoded_bytes": st.decoded}),
             _ => {
                 let p = LAST_PANIC.lock().unwrap_or_else(|e| e.into_inner()).clone().unwrap_or_else(|| "panic".into());
                 json!({"outcome": "panic", "ms": ms, "panic": p})
@@ -722,6 +796,11 @@ pub struct DocResult {
     pub outcome: Outcome,
     pub ms: u64,
     pub calls: BTreeMap<String, u64>,
+    /// highest number of bytes allocated at one time while the document was walked (above the level before
+    /// it; counted by the allocator of the child); 0 when the walk did not return
+    pub peak_bytes: u64,
+    /// bytes of decoded stream data the library handed to the walker
+    pub decoded_bytes: u64,
 }
 
 #[derive(Clone, Copy, Debug)]
@@ -773,7 +852,7 @@ pub fn run_batch(prop: &str, docs: &[Doc], limits: Limits) -> Vec<DocResult> {
             Ok(c) => c,
             Err(e) => {
                 for r in results.iter_mut().skip(first) {
-                    *r = Some(DocResult { outcome: Outcome::NotRun(format!("spawn: {}", e)), ms: 0, calls: BTreeMap::new() });
+                    *r = Some(DocResult { outcome: Outcome::NotRun(format!("spawn: {}", e)), ms: 0, calls: BTreeMap::new(), peak_bytes: 0, decoded_bytes: 0 });
                 }
                 break;
             }
@@ -810,12 +889,12 @@ pub fn run_batch(prop: &str, docs: &[Doc], limits: Limits) -> Vec<DocResult> {
                     let v: Value = serde_json::from_str(it.next().unwrap_or("{}")).unwrap_or(json!({}));
                     let calls: BTreeMap<String, u64> = v["calls"].as_object().map(|o| o.iter().map(|(k, v)| (k.clone(), v.as_u64().unwrap_or(0))).collect()).unwrap_or_default();
                     let outcome = if v["outcome"] == "returned" { Outcome::Returned } else { Outcome::Panic(v["panic"].as_str().unwrap_or("panic").to_string()) };
-                    results[idx] = Some(DocResult { outcome, ms: v["ms"].as_u64().unwrap_or(0), calls });
+                    results[idx] = Some(DocResult { outcome, ms: v["ms"].as_u64().unwrap_or(0), calls, peak_bytes: v["peak_bytes"].as_u64().unwrap_or(0), decoded_bytes: v["decoded_bytes"].as_u64().unwrap_or(0) });
                     started = None;
                     next = idx + 1;
                 }
                 "T" => {
-                    results[idx] = Some(DocResult { outcome: Outcome::Timeout, ms: limits.time_limit_ms, calls: BTreeMap::new() });
+                    results[idx] = Some(DocResult { outcome: Outcome::Timeout, ms: limits.time_limit_ms, calls: BTreeMap::new(), peak_bytes: 0, decoded_bytes: 0 });
                     started = None;
                     next = idx + 1;
                 }
@@ -832,12 +911,12 @@ pub fn run_batch(prop: &str, docs: &[Doc], limits: Limits) -> Vec<DocResult> {
                 None => Outcome::Timeout,
                 Some(s) => Outcome::Crash { status: format!("{}", s), stderr_tail: tail },
             };
-            results[idx] = Some(DocResult { outcome, ms: 0, calls: BTreeMap::new() });
+            results[idx] = Some(DocResult { outcome, ms: 0, calls: BTreeMap::new(), peak_bytes: 0, decoded_bytes: 0 });
             next = idx + 1;
         } else if next == first && status.map(|s| !s.success()).unwrap_or(true) {
             // no progress at all: the child could not even start the first document
             let err = std::fs::read_to_string(&stderr_path).unwrap_or_default();
-            results[first] = Some(DocResult { outcome: Outcome::NotRun(format!("child made no progress: status {:?} {}", status, err.chars().take(300).collect::<String>())), ms: 0, calls: BTreeMap::new() });
+            results[first] = Some(DocResult { outcome: Outcome::NotRun(format!("child made no progress: status {:?} {}", status, err.chars().take(300).collect::<String>())), ms: 0, calls: BTreeMap::new(), peak_bytes: 0, decoded_bytes: 0 });
             next = first + 1;
         } else if next == first {
             break;
@@ -848,5 +927,5 @@ pub fn run_batch(prop: &str, docs: &[Doc], limits: Limits) -> Vec<DocResult> {
         }
     }
     let _ = std::fs::remove_dir_all(&dir);
-    results.into_iter().map(|r| r.unwrap_or(DocResult { outcome: Outcome::NotRun("no result".into()), ms: 0, calls: BTreeMap::new() })).collect()
+    results.into_iter().map(|r| r.unwrap_or(DocResult { outcome: Outcome::NotRun("no result".into()), ms: 0, calls: BTreeMap::new(), peak_bytes: 0, decoded_bytes: 0 })).collect()
 }
